@@ -160,6 +160,13 @@ def _emit_fn(gen, root, fn, canary_false=False, body_assumed=False):
                         n_requires=len(fn.requires), n_ensures=len(fn.ensures))
 
 
+def drop_tags():
+    """second, diagnostic pass of a check that has KNOWN findings: the clauses carrying these tags are taken as given (clause -> `true`,
+    spliced `assert` -> `assume`), so that another violation at the same program point is not hidden behind the known one (Verus reports the
+    first failing precondition of a call only).  Never used for the verdict on the known finding itself."""
+    return set(t for t in os.environ.get('VX_DROP_TAGS', '').split(',') if t)
+
+
 def _emit_clause(gen, c, o):
     c = c.rstrip()
     m = re.search(r'\s*//\s*((?:\[[^\]]+\]\s*)+)$', c)
@@ -167,6 +174,8 @@ def _emit_clause(gen, c, o):
     if m:
         tag = ' // ' + m.group(1).strip()
         c = c[:m.start()]
+        if drop_tags() & set(re.findall(r'\[([^\]]+)\]', tag)):
+            c = 'true'
     else:
         m = re.search(r'\s//\s[^\n]*$', c)       # a free-text trailing comment on the last line
         if m:
@@ -398,6 +407,18 @@ def generate(unit, root, canary=False):
     with X.features(getattr(unit, 'cfg_features', ())):      # opt-in per unit (e.g. async-io); the default configuration otherwise
         walk(unit.items)
     _emit(gen, '} // verus!')
+    dt = drop_tags()
+    if dt:
+        for i, ln in enumerate(gen.lines):
+            tags = set(re.findall(r'\[([^\]]+)\]', ln.split('//', 1)[1])) if '//' in ln else set()
+            if not (tags & dt):
+                continue
+            if re.match(r'^\s*assert\(', ln):
+                gen.lines[i] = ln.replace('assert(', 'assume(', 1)
+            else:
+                m = re.match(r'^(\s*(?:requires |ensures )?)(.*?),(\s*//.*)$', ln)
+                if m and m.group(2).strip() != 'true':
+                    gen.lines[i] = m.group(1) + 'true,' + m.group(3)
     _emit(gen, 'fn main() {}')
     return gen
 
@@ -584,33 +605,24 @@ def _describe_failure(gen, unit, d):
 
 
 def _missing_consts(unit, root, res):
-    """names rustc could not find (E0425) that are module-level consts of a source file the unit extracts from -> Copy items for them.
-    A change that introduces a new constant next to a function under contract is then verified WITH the constant instead of ending undecided."""
-    names = set()
-    for d in res.get('diags', []):
-        for m in re.finditer(r'cannot find value `([A-Z][A-Z0-9_]*)`', d.get('message', '') + ' ' + str(d.get('rendered', ''))):
-            names.add(m.group(1))
-    if not names:
+    """what a front-end error says the generated file lacks and vx/ondemand.py can supply: libc constants, a few std specifications,
+    module-level constants of the crate -> the unit is extended (once) and generated again"""
+    from . import ondemand as OD
+    subst, raws, copies, log = OD.additions(unit, root, res)
+    if not (subst or raws or copies):
         return []
-    files = []
-
-    def walk(items):
-        for it in items:
-            if isinstance(it, Group):
-                walk(it.items)
-            elif isinstance(it, (Fn, Lifted)) and it.file not in files:
-                files.append(it.file)
-    walk(unit.items)
-    out = []
-    for n in sorted(names):
-        for f in files:
-            try:
-                X.Source(root, f).find_item(r'(?m)^(?:pub(?:\([a-z]+\))? )?const %s\s*:' % re.escape(n))
-            except X.ExtractError:
-                continue
-            out.append(Copy(f, r'(?m)^(?:pub(?:\([a-z]+\))? )?const %s\s*:' % re.escape(n), make_pub=True))
-            break
-    return out
+    if subst:
+        have = list(getattr(unit, 'prelude_subst', ()))
+        subst = [x for x in subst if x not in have]       # normal and canary run share the unit object
+        unit.prelude_subst = have + subst
+    done = getattr(unit, '_ondemand_done', set())
+    raws = [r for r in raws if r not in done]
+    copies = [c for c in copies if c not in done]
+    unit._ondemand_done = done | set(raws) | set(copies)
+    extra = [Raw('\n'.join(raws))] if raws else []
+    extra += [Copy(f, rx, make_pub=True) for (f, rx) in copies]
+    unit.notes = (getattr(unit, 'notes', '') or '') + '\n' + '\n'.join(log)
+    return extra or [Raw('// ' + '; '.join(log))]
 
 
 def build_and_verify(unit, root, canary=False, rlimit=None, keep_name=None, _retry=True):
@@ -648,7 +660,7 @@ def build_and_verify(unit, root, canary=False, rlimit=None, keep_name=None, _ret
         try:
             res = json.load(open(cache))
             res['cached'] = True
-            if _retry and res.get('summary', {}).get('verification-results', {}).get('encountered-error') and not res.get('summary', {}).get('verification-results', {}).get('encountered-vir-error'):
+            if _retry and res.get('summary', {}).get('verification-results', {}).get('encountered-error'):
                 extra = _missing_consts(unit, root, res)
                 if extra:
                     unit.items = extra + list(unit.items)
@@ -661,7 +673,7 @@ def build_and_verify(unit, root, canary=False, rlimit=None, keep_name=None, _ret
         # slow query: one retry with a larger resource limit before giving up as undecided (never an alarm)
         res = run_verus(path, rlimit=60)
         res['retried_with_rlimit'] = 60
-    if _retry and res.get('summary', {}).get('verification-results', {}).get('encountered-error') and not res.get('summary', {}).get('verification-results', {}).get('encountered-vir-error'):
+    if _retry and res.get('summary', {}).get('verification-results', {}).get('encountered-error'):
         extra = _missing_consts(unit, root, res)
         if extra:
             unit.items = extra + list(unit.items)
